@@ -217,14 +217,10 @@ def wf (c : Case) : Bool :=
   (c.baseDefines.isEmpty || c.plainMid) &&
   (c.api == .attrS || c.fCmp == .unset)
 
-/-- K8: without auto-detection, a class that binds its own `__setattr__`, was not told to get one, and sits
-    below a class whose `__setattr__` attrs wrote (visible through the MRO for dict classes, only as a direct
-    base for slotted ones) has it replaced by `object.__setattr__`. -/
-def k8 (c : Case) : Bool :=
-  !expectErr c && !sAuto c && owns c "__setattr__" && (toldSlot c "__setattr__").isNone &&
-  c.attrsBase == .hooked && (!sSlots c || !c.plainMid)
-
-def known (c : Case) : List String := if k8 c then ["K8"] else []
+/-- No listed deviation is left: K8 (own `__setattr__` replaced by `object.__setattr__` below an attrs-made
+    `__setattr__` when auto-detection is off) is repaired — the reset never touches a `__setattr__` of the
+    class body (fixes/C14/K8.diff). -/
+def known (_ : Case) : List String := []
 
 def check : Check Case Obs := { model := model, spec := spec, wf := wf, known := known }
 def handle := runCheck check
